@@ -11,7 +11,10 @@ from ..gen import c07gen as g
 LEVEL = 'exploration'
 MODE = 'thread'
 RULE = ('seeded random C and C++ projects (vf/gen/c07gen.py: 3-10 translation units, some in a '
-        'static library, 3-12 headers in an include DAG of depth <= 4 spread over 1-2 include '
+        'static library, 3/8 of the projects with a precompiled header for the executable\'s TUs - '
+        'pch=\'file\' on a single-source executable or one precompiled_header() object shared by '
+        '>= 2 objects - that is never #included by the sources and pulls in 1-2 headers reachable '
+        'only through it; 3-12 headers in an include DAG of depth <= 4 spread over 1-2 include '
         'directories that reach the compiler through header_directory()/string includes=/'
         'opts.include_dir/raw -I/global_options, never listed individually; header and '
         'include-directory names plain or with spaces and Make-special characters, each admitted '
@@ -19,7 +22,9 @@ RULE = ('seeded random C and C++ projects (vf/gen/c07gen.py: 3-10 translation un
         'consumes the compiler\'s raw -MMD output - one name at a time, then all names of a history '
         'together in both orders) built by the real gcc/g++ (clang/clang++ in '
         'thorough) through recording wrappers, under histories of 6-12 edits (modify header/'
-        'source, add header + #include, remove #include then delete, delete in one step, rename '
+        'source, modify the PCH header, modify a header reached only through the PCH, '
+        'add header + #include (into a TU, a header or the PCH header), remove #include then '
+        'delete, delete in one step, rename '
         'header with includers updated, move header between include dirs, no-op, clean, add/'
         'rename/delete source with build.bfg edited) each followed by a build, a run of the '
         'program and a look at the wrappers\' log; '
@@ -36,15 +41,21 @@ ASSUMPTIONS = [
     'for Make, a hand-spelt empty rule for it (raw, backslash-escaped or through a variable, '
     'per character) survives the deletion of the header; the names of one history must also '
     'pass together',
+    'precompiled headers are only demanded where a hand-written build file with the PCH as a '
+    'normal prerequisite of the object (compiled with -include, own depfiles) follows edits of '
+    'the PCH header and of a header behind it and is quiet on a no-op (per compiler, language '
+    'and back end)',
     'timestamp discipline of DESIGN.md Appendix C.2 (kernel clock only, strictly newer, verified)',
     'Ninja half executed by vf/ref/refninja.py (deps=gcc, deps log, -t clean, regeneration)',
 ]
 KEEP_GOING = False
+# which projects (index mod 8) use a precompiled header, and in which form
+PCH_SHARE = {1: 'object', 4: 'string', 6: 'object'}
 EXTRA_COVERAGE = {'backends': ['make', 'ninja (vf/ref/refninja.py)'],
                   'compilers': lambda tier: ['gcc', 'g++'] + (['clang', 'clang++']
                                                               if tier == 'thorough' else [])}
 # edits that make a file named in the previous depfiles vanish share their root causes
-KIND_CLASS = {'del_header': 'header-gone', 'rename_header': 'header-gone',
+KIND_CLASS = {'mod_pch': 'pch-header-modified', 'del_header': 'header-gone', 'rename_header': 'header-gone',
               'move_header': 'header-gone', 'mod_header': 'header-modified',
               'add_header': 'header-added', 'uninclude': 'include-removed',
               'rm_header': 'unused-header-deleted'}
@@ -63,6 +74,10 @@ def floors(tier):
             'edit:stale-dep-header-gone': 12 if q else 200,
             'names:special-admitted': 15 if q else 300,
             'calibration:admitted': 30 if q else 500,
+            'edit:mod_pch': 3 if q else 50,
+            'edit:header-only-through-pch': 3 if q else 50,
+            'obligations:pch-users-must-recompile': 10 if q else 300,
+            'builds:noop-after-pch-edit': 1 if q else 20,
             'distinct_nontrivial': 40 if q else 300}
 
 
@@ -259,6 +274,110 @@ def _calibrate(compiler, lang, backend, pairs, style):
         core.rmtree(root)
 
 
+def calibrate_pch(compiler, lang, backend):
+    """-> (ok, reason).  Can compiler + build tool do precompiled headers the way the
+    property demands?  Hand-written build file: the PCH (compiled from pre.h, which includes
+    inc/inner.h) is a normal prerequisite of the object, the object is compiled with
+    -include ./pre.h and its own depfile; editing inner.h or pre.h must change what the
+    program prints, and a no-op must run nothing."""
+    key = (compiler, lang, backend, 'pch')
+    with _calib_lock:
+        if key in _calib:
+            return _calib[key]
+    out = (False, 'no PCH suffix works')
+    for ext in (['gch', 'pch'] if compiler == 'gcc' else ['pch', 'gch']):
+        out = _calibrate_pch(compiler, lang, backend, ext)
+        if out[0]:
+            break
+    with _calib_lock:
+        _calib[key] = out
+    return out
+
+
+def _calibrate_pch(compiler, lang, backend, ext):
+    root = core.mkscratch('c07pch')
+    try:
+        src, bld = os.path.join(root, 'src'), os.path.join(root, 'bld')
+        tu = os.path.join(src, 't.c' if lang == 'c' else 't.cpp')
+        pre, inner = os.path.join(src, 'pre.h'), os.path.join(src, 'inc', 'inner.h')
+
+        def put(i, p):
+            proj.write_tree(src, {'inc/inner.h': '#define INNER %d\n' % i,
+                                  'pre.h': '#include "inner.h"\n#define P (%d+INNER)\n' % p})
+        put(1, 10)
+        proj.write_tree(src, {os.path.basename(tu): '#include <stdio.h>\nint main(void)'
+                                                    '{printf("%d\\n", P);return 0;}\n'})
+        os.makedirs(bld)
+        env = core.base_env({'C07_INC0': os.path.join(src, 'inc'), 'C07_SRC': tu, 'C07_PRE': pre,
+                             'C07_CC': cc_for(compiler, lang, wrap=False)})
+        xh = 'c-header' if lang == 'c' else 'c++-header'
+        gch = 'pre.h.' + ext
+        if backend == 'make':
+            text = ('all: t\n'
+                    '%(g)s: $(C07_PRE)\n'
+                    '\t"$$C07_CC" -x %(x)s -I "$$C07_INC0" -c "$$C07_PRE" -MMD -MF %(g)s.d '
+                    '-o %(g)s\n'
+                    't.o: $(C07_SRC) %(g)s\n'
+                    '\t"$$C07_CC" -I "$$C07_INC0" -include ./pre.h -c "$$C07_SRC" -MMD -MF t.o.d '
+                    '-o t.o\n'
+                    't: t.o\n'
+                    '\t"$$C07_CC" t.o -o t\n'
+                    '-include t.o.d\n'
+                    '-include %(g)s.d\n' % {'g': gch, 'x': xh})
+            argv = ['make', '--no-print-directory']
+        else:
+            text = ('rule pch\n'
+                    '  command = "$$C07_CC" -x %(x)s -I "$$C07_INC0" -c $in -MMD -MF $out.d -o $out\n'
+                    '  depfile = $out.d\n'
+                    '  deps = gcc\n'
+                    'rule cc\n'
+                    '  command = "$$C07_CC" -I "$$C07_INC0" -include ./pre.h -c $in -MMD -MF $out.d '
+                    '-o $out\n'
+                    '  depfile = $out.d\n'
+                    '  deps = gcc\n'
+                    'rule ld\n'
+                    '  command = "$$C07_CC" $in -o $out\n'
+                    'build %(g)s: pch %(p)s\n'
+                    'build t.o: cc %(s)s | %(g)s\n'
+                    'build t: ld t.o\n'
+                    'default t\n' % {'g': gch, 'x': xh, 'p': pre, 's': tu})
+            argv = [os.path.join(core.BIN, 'ninja')]
+        with open(os.path.join(bld, proj.buildfile(backend)), 'w') as f:
+            f.write(text)
+        exe = os.path.join(bld, 't')
+
+        def build_says(expect):
+            rc, o = core.run(argv, cwd=bld, env=env, timeout=120)
+            if rc != 0 or not os.path.isfile(exe):
+                return False
+            rc, o = core.run([exe], cwd=bld, env=env, timeout=60)
+            return rc == 0 and o.strip() == str(expect)
+
+        def quiet():
+            m = (_mtime(exe), _mtime(os.path.join(bld, 't.o')), _mtime(os.path.join(bld, gch)))
+            proj.settle()
+            rc, o = core.run(argv, cwd=bld, env=env, timeout=120)
+            return rc == 0 and m == (_mtime(exe), _mtime(os.path.join(bld, 't.o')),
+                                     _mtime(os.path.join(bld, gch)))
+
+        proj.settle()
+        if not build_says(11):
+            return False, 'reference PCH build does not work'
+        if not quiet():
+            return False, 'reference PCH build is not quiet on a no-op'
+        put(2, 10)
+        proj.bump(inner, bld, src)
+        if not build_says(12) or not quiet():
+            return False, 'reference PCH build misses a header behind the PCH'
+        put(2, 20)
+        proj.bump(pre, bld, src)
+        if not build_says(22) or not quiet():
+            return False, 'reference PCH build misses the PCH header'
+        return True, ''
+    finally:
+        core.rmtree(root)
+
+
 # --------------------------------------------------------------------------
 # cases
 
@@ -274,6 +393,9 @@ def cases(tier, seed):
             compiler = 'clang' if i % 3 == 2 else 'gcc'
         p_special = [0.0, 0.35, 0.6, 0.35][i % 4]
         st = g.gen_state(rng, lang, p_special, special_incdir=(i % 3 == 1))
+        form = PCH_SHARE.get(i % 8)
+        if form:
+            st = g.add_pch(core.rng_for(seed, 'c07pch', i), st, form, p_special)
         nedits = 8 if quick else rng.randint(6, 12)
         hist = g.gen_history(rng, st, nedits, p_special, allow_regen=True)
         for backend in ('make', 'ninja'):
@@ -344,6 +466,13 @@ def resolve(case, res):
     `a( b)` in a prerequisite list as archive members, for example).
     -> (state, history) ready to run."""
     compiler, backend = case['compiler'], case['backend']
+    if case['state'].get('pch'):
+        ok, why = calibrate_pch(compiler, case['state']['lang'], backend)
+        res.ev('calibration:pch-admitted' if ok else 'calibration:pch-excluded')
+        if not ok:
+            res.exclude('%s/%s: %s' % (compiler, backend, why))
+            s2, h2 = g.strip_pch(case['state'], case['history'])
+            case = dict(case, state=s2, history=h2)
     banned = set()
     st, hist, used = _pass(case, res, banned, True)
     while len(used) > 1:
@@ -382,6 +511,8 @@ class Observed:
 
 def observe(recs, src, st):
     by_path = {os.path.join(src, t['file']): tid for tid, t in st['tus'].items()}
+    if st.get('pch'):
+        by_path[os.path.join(src, st['pch']['file'])] = 'pch'
     ob = Observed()
     for r in recs:
         if 'corrupt' in r:
@@ -410,7 +541,7 @@ def observe(recs, src, st):
                 continue
             ob.compiled.append(tid)
             for o in outs:
-                ob.products[o] = ('object', tid)
+                ob.products[o] = ('pch' if tid == 'pch' else 'object', tid)
             for i, a in enumerate(argv[:-1]):
                 if a == '-MF':
                     ob.products[absn(argv[i + 1])] = ('depfile', tid)
@@ -505,6 +636,7 @@ def run_history(case, st, hist, res, count=True, keep_going=False):
     products = {}
     done = []           # ops applied so far (for the truncated replay case)
     ctx = {'state': st}
+    prev = {}
 
     def ev(name, n=1):
         if count:
@@ -524,6 +656,12 @@ def run_history(case, st, hist, res, count=True, keep_going=False):
                    __case__=dict(case, history=list(done)))
         what2 = what + ('/' + kw['reason'] if kw.get('reason') else '')
         kc = KIND_CLASS.get(kind, kind)
+        trig = 'chars:' + chars
+        if wit.pop('pch_related', False):
+            # only the edge object -> precompiled header carries this change
+            kc, trig = 'change-behind-pch', 'pch:' + ctx['state']['pch']['form']
+            wit['pch_form'] = ctx['state']['pch']['form']
+            wit['no_probe'] = True
         if kw.get('reason') == 'makefile-syntax' and step > 0:
             # the build file no longer parses: whatever was edited, every later build fails
             sc = syntax_culprit(bld, kw.get('raw_output'), root)
@@ -531,7 +669,7 @@ def run_history(case, st, hist, res, count=True, keep_going=False):
                 kc = 'any-rebuild'
                 wit['offending_line'], wit['offending_chars'] = sc
         wit.pop('raw_output', None)
-        res.violate((backend, kc, what2, 'chars:' + chars), wit)
+        res.violate((backend, kc, what2, trig), wit)
         if (KEEP_GOING or keep_going) and step > 0:
             raise StepFailed()
         raise Stop()
@@ -565,7 +703,7 @@ def run_history(case, st, hist, res, count=True, keep_going=False):
                     stale.extend(m for m in out.split() if m not in current)
         return stale
 
-    def check_output(step, kind, cur, edited):
+    def check_output(step, kind, cur, edited, via_pch=()):
         rc, out = run_prog(cur)
         exp = g.expected_lines(cur)
         ev('obligations:output-lines', len(exp))
@@ -589,7 +727,8 @@ def run_history(case, st, hist, res, count=True, keep_going=False):
                     raise StepFailed()
                 raise Stop()
             fail(step, kind, 'stale-output', edited, program_rc=rc, expected=exp, got=got[:40],
-                 wrong_lines=wrong[:10])
+                 wrong_lines=wrong[:10],
+                 pch_related=bool(wrong_tus) and set(wrong_tus) <= set(via_pch))
 
     try:
         files = g.render(st)
@@ -611,7 +750,8 @@ def run_history(case, st, hist, res, count=True, keep_going=False):
         if rc != 0:
             fail(0, 'initial', 'build-failed', '', reason=fail_reason(out),
                  output=out[-1500:])
-        missing = sorted(set(st['tus']) - set(ob.compiled), key=int)
+        missing = sorted((set(st['tus']) | ({'pch'} if st.get('pch') else set()))
+                         - set(ob.compiled))
         if missing:
             fail(0, 'initial', 'not-compiled', '', missing=missing)
         check_output(0, 'initial', st, '')
@@ -647,6 +787,10 @@ def run_history(case, st, hist, res, count=True, keep_going=False):
                 if o[0] == 'write':
                     proj.bump(os.path.join(src, o[1]), bld, src)
             must = g.must_recompile(nxt, written)
+            # TUs (and the PCH itself) that this edit reaches only through the precompiled header
+            via_pch = {t for t in must if t == 'pch' or
+                       not (set(written) & set(g.own_closure_files(nxt, t)))}
+            inner_edit = kind == 'mod_header' and op['h'] in g.only_through_pch(cur)
             stale_dep_gone = kind in ('del_header', 'rename_header', 'move_header')
             try:
                 if kind == 'clean':
@@ -659,7 +803,7 @@ def run_history(case, st, hist, res, count=True, keep_going=False):
                         kinds_left = sorted({products[p][0] for p in left})
                         fail(idx, kind, 'clean-left-' + '+'.join(kinds_left), '',
                              left=[os.path.relpath(p, bld) for p in left][:10])
-                    must = sorted(nxt['tus'], key=int)
+                    must = sorted(nxt['tus'], key=int) + (['pch'] if nxt.get('pch') else [])
                     products.clear()
                 rc, out, recs = do_build()
                 ob = observe(recs, src, nxt)
@@ -671,6 +815,15 @@ def run_history(case, st, hist, res, count=True, keep_going=False):
                 ev('compile-invocations', len(ob.compiled))
                 ev('link-invocations', ob.links + ob.archives)
                 ev('edit:' + kind)
+                if nxt.get('pch') and kind != 'clean':
+                    if via_pch:
+                        ev('edit:reaches-objects-through-pch')
+                        ev('obligations:pch-users-must-recompile', len(via_pch))
+                    if inner_edit:
+                        ev('edit:header-only-through-pch')
+                    if kind == 'noop' and prev.get('via_pch'):
+                        ev('builds:noop-after-pch-edit')
+                prev['via_pch'] = bool(via_pch) and kind != 'clean'
                 if stale_dep_gone:
                     ev('edit:stale-dep-header-gone')
                 chars = g.name_chars(edited_for_class or '')
@@ -678,7 +831,10 @@ def run_history(case, st, hist, res, count=True, keep_going=False):
                     ev('names:special-admitted')
                 if count:
                     res.key([backend, compiler, lang, st['incmode'], kind, chars,
-                             min(len(must), 3)], kind != 'mod_source')
+                             min(len(must), 3), (st.get('pch') or {}).get('form'),
+                             bool(via_pch)], kind != 'mod_source')
+                    if nxt.get('pch'):
+                        res.classes.add('pch:%s/%s/%s' % (nxt['pch']['form'], backend, compiler))
                     res.classes.add('%s/%s/%s' % (backend, compiler, kind))
                     if chars:
                         res.classes.add('chars:' + chars)
@@ -698,14 +854,17 @@ def run_history(case, st, hist, res, count=True, keep_going=False):
                     if missing:
                         fail(idx, kind, 'not-recompiled', edited_for_class, missing=missing,
                              must=must, compiled=ob.compiled, op=op,
-                             missing_files=[nxt['tus'][t]['file'] for t in missing])
+                             pch_related=kind != 'clean' and set(missing) <= via_pch,
+                             missing_files=[nxt['pch']['file'] if t == 'pch' else
+                                            nxt['tus'][t]['file'] for t in missing])
                     if kind == 'clean':
                         gone = sorted(p for p, k in products.items()
                                       if k[0] != 'depfile' and not os.path.lexists(p))
                         if gone or not ob.links:
                             fail(idx, kind, 'rebuild-after-clean-incomplete', '',
                                  missing=[os.path.relpath(p, bld) for p in gone], links=ob.links)
-                check_output(idx, kind, nxt, edited_for_class)
+                check_output(idx, kind, nxt, edited_for_class,
+                             via_pch if kind != 'clean' else ())
             except StepFailed:
                 pass
             cur, rendered = nxt, new_render
@@ -714,6 +873,7 @@ def run_history(case, st, hist, res, count=True, keep_going=False):
                           'incmode': st['incmode'], 'incdirs': st['incdirs'],
                           'headers': {h: g.hdr_path(st, h) for h in st['headers']},
                           'tus': {t: v['file'] for t, v in st['tus'].items()},
+                          'pch': st.get('pch'),
                           'history': hist, 'final_output': g.expected_lines(cur)}
     except Stop:
         pass
